@@ -1,4 +1,5 @@
 """C01: slicing selects exactly the elements Python/NumPy indexing would select."""
+import re
 import common as C
 import gen as G
 
@@ -12,9 +13,22 @@ THEOREMS = ['range_loop_is_python_slice', 'range_is_progression', 'range_never_o
 RULE = ('value-first random layouts x slice tuples of length 0-4 over {integer, range (bounds in [-len-2, len+2] or None, '
         'steps +-1..3), ellipsis, newaxis, 1-d integer arrays (boolean arrays as nonzero), field, fields}, incl. '
         'out-of-range indexes; non-trivial = slice has >= 1 dimension-consuming item and the input has >= 1 non-empty '
-        'list; distinct by case text')
-ASSUMPTIONS = ['multi-dimensional index arrays, index arrays with missing values and jagged index arrays are not yet specified',
-               'toslice()/asslice() conversion of Python objects (src/python/content.cpp) cannot be built here',
+        'list; distinct by case text; ~15% of the cases: 0-2 leading ranges + one array-like item (n-d integer array, rectilinear '
+        'boolean array, 1-d index with missing values, jagged integer/boolean index of depth 2-4 with None at any level, built to '
+        'match the value of the array, ~6% out-of-range entries, ~5% length mismatches, empty lists, random encodings of the index) '
+        '+ 0-2 trailing items')
+ASSUMPTIONS = ['array-like index items (Ops_GetitemAdv.v, value-level specification only, no layout-level model): an n-d integer array, a '
+               'rectilinear boolean array, a 1-d integer/boolean index with missing values, a jagged integer/boolean index (None at any level) - '
+               'one such item per slice, preceded by ranges only, followed by any of the items the basic specification covers except a further '
+               'integer array; unspecified (skipped): the item reaching a string or a record, a boolean mask whose length differs from the '
+               'list it filters (the library only sees the true positions), integers after a non-integer item behind an n-d/boolean array '
+               '(documented refusal), and the undocumented refusals listed in the header of Ops_GetitemAdv.v (missing-value index followed by an '
+               'integer or applied below ranges to option-type lists, option-type jagged index below ranges, jagged index of depth >= 3 below '
+               'ranges selecting several lists or with an outermost None facing a non-empty list, index lists facing a missing list, no list '
+               'selected below the ranges)',
+               'an awkward array used as an index is converted by the library\'s own Content::asslice() (driver item (lay LAYOUT)); a '
+               'rectilinear boolean array is converted to numpy.nonzero positions by the driver (item barr) as toslice_part() does; the rest of '
+               'toslice() (src/python/content.cpp: Python objects -> Slice) cannot be built here',
                'on record-containing types integers are not combined with index arrays (both are advanced indexes that merge into one '
                'dimension; whether the records end up inside or outside the merged dimension is not specified)',
                'types containing unions are skipped; positional slicing below a record followed by further items is compared '
@@ -77,9 +91,221 @@ def rand_items(rng, t, vals):
     return items
 
 
+# ---------------------------------------------------------------- array-like items (Ops_GetitemAdv.v)
+def _rand_range(rng, L, single=False):
+    """(text, python slice)"""
+    if single and L > 0:
+        i = rng.randrange(L)
+        return '(rng %d %d none)' % (i, i + 1), slice(i, i + 1, None)
+    if rng.random() < 0.45:
+        return '(rng none none none)', slice(None, None, None)
+
+    def b():
+        return None if rng.random() < 0.3 else rng.randint(-L - 2, L + 2)
+    a, e = b(), b()
+    st = rng.choice([None, 1, 1, 2, -1, -1, -2])
+    tx = lambda v: 'none' if v is None else str(v)
+    return '(rng %s %s %s)' % (tx(a), tx(e), tx(st)), slice(a, e, st)
+
+
+def _lists_below(t, lists, slices):
+    """the lists (python) found below the leading ranges: (elem type, [list...]) or None when a range meets a non-list"""
+    for sl in slices:
+        t = t[1] if t[0] == 'opt' else t
+        if t[0] != 'list':
+            return None
+        nxt = []
+        for l in lists:
+            for e in l[sl]:
+                if e is not None:
+                    nxt.append(e)
+        t, lists = t[1], nxt
+    return t, lists
+
+
+def _gen_jag(rng, t, l, depth, boolean, opts, into_str):
+    """an index (nested python lists / None) of `depth` levels for the list l whose elements have type t;
+    opts[d] = the index has option type at level d (None entries)"""
+    te = t[1] if t[0] == 'opt' else t
+    n = len(l)
+    none_here = opts[0]
+    if depth == 1:
+        if boolean:
+            m = [rng.random() < 0.5 for _ in range(n)]
+            if rng.random() < 0.05:
+                m = m[:-1] if (m and rng.random() < 0.5) else m + [rng.random() < 0.5]
+            out = list(m)
+        else:
+            k = rng.choice([0, 1, 1, 2, 3])
+            out = [rng.randint(-n, n - 1) if n > 0 else rng.choice([0, -1]) for _ in range(k)]
+            if out and n > 0 and rng.random() < 0.06:
+                out[rng.randrange(len(out))] = rng.choice([n, -n - 1, n + 3])
+            if n == 0 and rng.random() < 0.8:
+                out = []
+        if none_here:
+            out = [None if rng.random() < 0.3 else v for v in out]
+            if rng.random() < 0.4:
+                out.insert(rng.randint(0, len(out)), None)
+        return out
+    subs = []
+    for e in l:
+        if none_here and rng.random() < 0.25:
+            subs.append(None)
+        elif isinstance(e, list):
+            subs.append(_gen_jag(rng, te[1] if te[0] == 'list' else te, e, depth - 1, boolean, opts[1:], into_str))
+        elif isinstance(e, tuple) and e[0] == '$str' and into_str:
+            subs.append(_gen_jag(rng, ('leaf', 'uint8'), list(e[2]), depth - 1, boolean, opts[1:], False))
+        else:
+            # a missing list, or the index is deeper than the array here
+            subs.append(_gen_jag(rng, ('leaf', 'int64'), [0] * rng.choice([0, 0, 1, 2]), depth - 1, boolean, opts[1:], False))
+    if rng.random() < 0.05:
+        if subs and rng.random() < 0.5:
+            subs.pop()
+        else:
+            subs.append(_gen_jag(rng, ('leaf', 'int64'), [], depth - 1, boolean, opts[1:], False))
+    return subs
+
+
+def _index_layout(rng, depth, boolean, opts, idx):
+    leaf = ('leaf', 'bool' if boolean else rng.choice(['int64'] * 6 + ['int32', 'uint8', 'int8', 'uint32']))
+    t = ('opt', leaf) if opts[depth - 1] else leaf
+    for d in range(depth - 2, -1, -1):
+        t = ('list', t)
+        if opts[d]:
+            t = ('opt', t)
+    if not boolean and leaf[1].startswith('uint'):
+        # unsigned index arrays cannot hold the negative positions
+        def fix(v):
+            if isinstance(v, list):
+                return [fix(x) for x in v]
+            return v if v is None else abs(v)
+        idx = fix(idx)
+    enc = G.Enc(rng, list_kinds=('lo', 'la'), special=False, widths=['i64', 'i64', 'i32', 'u32'])
+    return G.encode(enc, t, idx), idx
+
+
+def adv_cases(rng, n, prefix='x'):
+    """slices pre ++ [array-like item] ++ post: pre = 0-2 ranges, the item = n-d integer array | rectilinear boolean
+    array | 1-d index with missing values | jagged integer/boolean index (None at any level) made to match the
+    array's value (mostly), post = 0-2 of {range, integer, field(s), ellipsis, newaxis}"""
+    out = []
+    for i in range(n):
+        a = G.gen_array(rng, depth=rng.choice([1, 2, 3, 3, 4]), canonical_too=False,
+                        type_kw=dict(allow_union=rng.random() < 0.03, allow_rec=rng.random() < 0.4),
+                        enc_kw=dict(weird_empty=0.05, strided=0.05))
+        t, vals = a['type'], a['vals']
+        mn, mx = G.list_depth(t)
+        hasrec = G.has_kind(t, 'rec')
+        emptyidx = False
+        kind = rng.choice(['nd', 'nd', 'miss', 'miss', 'miss', 'jag', 'jag', 'jag', 'jag', 'bool'])
+        npre = rng.choice([0, 0, 0, 1, 1, 2])
+        npre = min(npre, mn - 1)
+        if kind == 'bool':
+            npre = 0
+        pre, slices = [], []
+        tl, lists = ('list', t), [vals]
+        for k in range(npre):
+            L = len(lists[0]) if lists else rng.choice([0, 1, 2, 3])
+            tx, sl = _rand_range(rng, L, single=(kind == 'jag' and rng.random() < 0.6))
+            below = _lists_below(tl, lists, [sl])
+            if below is None or below[0][0] not in ('list', 'opt'):
+                break
+            pre.append(tx)
+            slices.append(sl)
+            tl, lists = below
+            tl = tl[1] if tl[0] == 'opt' else tl
+            if tl[0] != 'list':
+                pre.pop()
+                break
+        # the lists the item applies to, and their element type
+        te = tl[1]
+        l0 = lists[0] if lists else []
+        ndim = len(pre)
+        if kind == 'nd':
+            rank = rng.choice([2, 2, 2, 3])
+            shape = [rng.choice([0, 1, 1, 2, 2, 2, 3, 3]) for _ in range(rank)]
+            cnt = 1
+            for d in shape:
+                cnt *= d
+            L = min([len(l) for l in lists]) if lists else rng.choice([0, 1, 2])
+            data = [rng.randint(-L, L - 1) if L > 0 else rng.choice([0, -1]) for _ in range(cnt)]
+            if data and rng.random() < 0.06:
+                data[rng.randrange(cnt)] = rng.choice([L, -L - 1, L + 2])
+            item = '(arr (%s) (%s))' % (' '.join(map(str, shape)), ' '.join(map(str, data)))
+            ndim += 1
+            idepth = 1
+        elif kind == 'bool':
+            n0 = len(vals)
+            shape = [n0 if rng.random() < 0.92 else max(0, n0 + rng.choice([-1, 1]))]
+            inner = [len(v) for v in vals if isinstance(v, list)]
+            if inner and len(inner) == len(vals) and len(set(inner)) == 1 and rng.random() < 0.5:
+                shape.append(inner[0])
+            cnt = 1
+            for d in shape:
+                cnt *= d
+            bits = [1 if rng.random() < 0.5 else 0 for _ in range(cnt)]
+            item = '(barr (%s) (%s))' % (' '.join(map(str, shape)), ' '.join(map(str, bits)))
+            emptyidx = not any(bits)
+            ndim += len(shape)
+            idepth = len(shape)
+        else:
+            boolean = rng.random() < 0.3
+            if kind == 'miss':
+                idepth = 1
+                opts = [rng.random() < 0.9]
+            else:
+                avail = 1
+                tt = te
+                while True:
+                    tt = tt[1] if tt[0] == 'opt' else tt
+                    if tt[0] != 'list':
+                        break
+                    avail += 1
+                    tt = tt[1]
+                idepth = min(avail, rng.choice([2, 2, 2, 3, 3, 4]))
+                if rng.random() < 0.04:
+                    idepth += 1            # deeper than the array (an error) or into the characters of strings
+                if idepth < 2:
+                    kind, idepth = 'miss', 1
+                opts = [rng.random() < 0.3 for _ in range(idepth)]
+            idx = _gen_jag(rng, te, l0, idepth, boolean, opts, rng.random() < 0.03)
+            lay, idx = _index_layout(rng, idepth, boolean, opts, idx)
+            item = '(lay %s)' % G.sx(lay)
+            emptyidx = len(idx) == 0 or (idepth == 1 and not any(v is None or v is True or (v is not False and not boolean) for v in idx))
+            ndim += idepth
+        # the rest of the slice
+        post = []
+        for _ in range(rng.choice([0, 0, 0, 1, 1, 2])):
+            r = rng.random()
+            L = rng.choice([0, 1, 2, 3, 4])
+            if r < 0.25 and ndim < mn and not hasrec and not (kind in ('miss',) and rng.random() < 0.9):
+                post.append('(at %d)' % rng.randint(-L - 1, L))
+                ndim += 1
+            elif r < 0.6 and ndim < mn:
+                post.append(_rand_range(rng, L)[0])
+                ndim += 1
+            elif r < 0.66 and not hasrec and 'ell' not in post:
+                post.append('ell')
+            elif r < 0.70 and not hasrec:
+                post.append('newaxis')
+            elif r >= 0.8:
+                names = ['a', 'b', 'c', 'x', 'y', 'pt', '0', '1']
+                if rng.random() < 0.7:
+                    post.append('(fld %s)' % rng.choice(names))
+                else:
+                    post.append('(flds %s)' % ' '.join(rng.sample(names[:6], rng.choice([1, 2]))))
+        items = pre + [item] + post
+        nontriv = any(isinstance(v, list) and v for v in vals) or (len(vals) > 0 and not pre)
+        tags = dict(nitems=len(items), kinds=' '.join(sorted(set(it.split(' ')[0].strip('(') for it in items))),
+                    adv='%s depth=%d pre=%d post=%d' % (kind, idepth, len(pre), len(post)))
+        out.append(C.Case('%s%d' % (prefix, i), 'getitem', ['(' + ' '.join(items) + ')'], [G.sx(a['layout'])],
+                          dict(nontrivial=nontriv, tags=tags, type=t, emptyidx=emptyidx and (len(pre) > 0 or kind == 'bool'))))
+    return out
+
+
 def cases(rng, tier):
     n = 15000 if tier == 'quick' else 400000
-    out = []
+    out = adv_cases(rng, n * 15 // 85)
     for i in range(n):
         a = G.gen_array(rng, depth=rng.choice([1, 2, 3, 3, 4]), canonical_too=False,
                         type_kw=dict(allow_union=rng.random() < 0.05, allow_rec=rng.random() < 0.5),
@@ -96,10 +322,125 @@ def cases(rng, tier):
     return out
 
 
+def _prod(l):
+    p = 1
+    for x in l:
+        p *= x
+    return p
+
+
 def signature(c, impl, v):
     body = c.body()
-    if '(arr (0) ())' in body and ('bad oob' in v or 'viol closure' in v or 'viol value' in v):
+    differs = 'bad oob' in v or 'viol closure' in v or 'viol value' in v
+    shapes = [[int(x) for x in m.split()] for m in re.findall(r'\(arr \(([0-9 ]*)\) \(', body)]
+    # awkward_slicearray_ravel: sub-blocks of an index array of rank >= 3 are written at i*shape[1] instead of
+    # i*prod(shape[1:]) (overlap + uninitialised tail): wrong data or a random 'index out of range'
+    if any(len(sh) >= 3 and sh[0] >= 2 and _prod(sh[2:]) != 1 and _prod(sh) > 0 for sh in shapes) and \
+            (differs or v.startswith('crash')):
+        return 'index-array-rank3-ravel'
+    # getitem_next_array_wrap / getitem_next_regular_missing: a zero-length dimension made by an index array loses the
+    # lengths of the dimensions around it (RegularArray size 0 with zeros_length 0 / 1)
+    if ('(arr (0) ())' in body or any(0 in sh for sh in shapes) or c.meta.get('emptyidx') or
+            re.search(r'\(rng [^()]*\) \(lay \((ixo \w+ \(\)|bym \(\)|bim \(\) \w+ \w+ 0|unm \(np \w+ \(0\)|np \w+ \(0\))', body)) \
+            and differs:
         return 'empty-index-array-zero-length-regular'
+    # a jagged index reaching into the characters of strings: the 'string' list is dropped, the characters stay
+    # tagged 'char'/'byte' (a layout the library's own validity check rejects)
+    if '(lay ' in body and ('(par string' in body or '(par bytestring' in body) and 'viol closure' in v and \
+            ('(par char' in impl or '(par byte ' in impl):
+        return 'jagged-index-into-string-characters'
     if ('(par string' in body or '(par bytestring' in body) and '(np uint8 (0) ())' in impl:
         return 'string-empty-selection'
+    # ListArray::getitem_next_jagged(SliceMissing64) / awkward_ListArray_getitem_jagged_shrink: an index with missing
+    # values below its outermost level is aligned with the array by position in the slice, ignoring the array's own
+    # starts and the lists an option-type array has dropped: wrong elements, misplaced None, or a spurious error
+    # getitem_next_regular_missing ("if (length == 0) length = 1 ... will be trimmed later"): a missing-value index below
+    # ranges that select no list leaves an IndexedOptionArray pointing into zero-length content (unreachable, but the
+    # library's validity check rejects the layout); the value is right
+    if '(lay ' in body and '(rng ' in body and 'viol closure' in v and 'spec unspecified' in v:
+        return 'missing-index-zero-lists-invalid-layout'
+    # RegularArray::getitem_next_jagged compares the index with the whole content, also the part beyond size*length
+    # that a (valid) RegularArray does not reach: "cannot fit jagged slice with length n into ... of size m"
+    if '(lay ' in body and 'viol value (impl err)' in v and _reg_untrimmed(c.layouts[-1] if c.layouts else body[body.rfind(') (') + 2:]):
+        return 'jagged-index-regular-untrimmed-content'
+    lay = _lay_text(body)
+    if lay and differs and re.search(r'\((?:lo \w+ \([^()]*\)|la \w+ \([^()]*\) \([^()]*\)) (?:\(ix \w+ \([^()]*\) )?\((?:ixo|bym|bim|unm) ', lay):
+        return 'jagged-missing-index-misaligned'
     return None
+
+
+def _lay_text(body):
+    i = body.find('(lay ')
+    if i < 0:
+        return None
+    d = 0
+    for j in range(i, len(body)):
+        if body[j] == '(':
+            d += 1
+        elif body[j] == ')':
+            d -= 1
+            if d == 0:
+                return body[i:j + 1]
+    return None
+
+
+def _parse(s):
+    toks = s.replace('(', ' ( ').replace(')', ' ) ').split()
+    pos = [0]
+
+    def rd():
+        t = toks[pos[0]]
+        pos[0] += 1
+        if t == '(':
+            out = []
+            while toks[pos[0]] != ')':
+                out.append(rd())
+            pos[0] += 1
+            return out
+        return t
+    return rd()
+
+
+def _len(n):
+    h = n[0]
+    if h in ('np', 'nps'):
+        return int(n[2][0]) if n[2] else 0
+    if h == 'empty':
+        return 0
+    if h == 'lo':
+        return len(n[2]) - 1
+    if h == 'la':
+        return len(n[2])
+    if h == 'reg':
+        return int(n[2]) if int(n[1]) == 0 else _len(n[3]) // int(n[1])
+    if h in ('ix', 'ixo'):
+        return len(n[2])
+    if h == 'bym':
+        return len(n[1])
+    if h == 'bim':
+        return int(n[4])
+    if h == 'unm':
+        return _len(n[1])
+    if h == 'un':
+        return len(n[2])
+    if h == 'rec':
+        return int(n[1])
+    if h == 'par':
+        return _len(n[3])
+    return 0
+
+
+def _reg_untrimmed(text):
+    """some RegularArray in the layout has content beyond size*length"""
+    try:
+        tree = _parse(text)
+    except Exception:
+        return False
+
+    def walk(n):
+        if not isinstance(n, list) or not n or not isinstance(n[0], str):
+            return False
+        if n[0] == 'reg' and int(n[1]) > 0 and _len(n[3]) > int(n[1]) * (_len(n[3]) // int(n[1])):
+            return True
+        return any(walk(ch) for ch in n[1:] if isinstance(ch, list))
+    return walk(tree)
